@@ -437,7 +437,6 @@ void checkConservation(Reporter& rep, const Batch& b, const std::vector<std::vec
         {
             const auto& pk = b.pkts[it.packet];
             const uint8_t* m = frames[fi].data() + off;
-            wire::MsgHdr h = wire::parseMsgHdr(m);
             if (memcmp(m + wire::kMsgHeader, pk.payload.data() + it.offset, it.length) != 0)
             {
                 size_t k = 0;
@@ -446,20 +445,6 @@ void checkConservation(Reporter& rep, const Batch& b, const std::vector<std::vec
                 snprintf(buf, sizeof buf, "frame %zu: message of packet %zu (segment flag 0x%02x, payload offset %zu, length %zu) differs from the packet's bytes at +%zu: wire 0x%02x, packet 0x%02x",
                          fi, it.packet, it.seg, it.offset, it.length, k, m[wire::kMsgHeader + k], pk.payload[it.offset + k]);
                 rep.v("C07", it.seg == wire::SEG_NONE ? "C07:payload-bytes-altered" : "C07:segment-bytes-not-the-packets-slice", buf);
-                rep.v("C01", "C01:wire-payload-bytes", buf);
-            }
-            // header fields on the wire (independent parse): a defect that cancels between the library's own
-            // encoder and decoder is still visible here
-            bool hdrOk = h.ts == pk.ts && h.payloadType == pk.ptype && (h.flags & ~wire::CF_SEG) == (pk.flags & ~wire::CF_SEG);
-            if (pk.msgType == wire::MT_DATA)
-                hdrOk = hdrOk && h.idWord == pk.ifid;
-            else if (pk.msgType == wire::MT_STATUS || pk.msgType == wire::MT_VENDOR)
-                hdrOk = hdrOk && h.vendorId() == pk.vendor;
-            if (!hdrOk)
-            {
-                snprintf(buf, sizeof buf, "frame %zu packet %zu: wire header ts=%llu idword=0x%08x flags=0x%02x pt=%u, packet ts=%llu if=0x%08x vendor=0x%04x flags=0x%02x pt=%u",
-                         fi, it.packet, (unsigned long long) h.ts, h.idWord, h.flags, h.payloadType, (unsigned long long) pk.ts, pk.ifid, pk.vendor, pk.flags, pk.ptype);
-                rep.v("C01", "C01:wire-message-header", buf);
             }
             off += wire::kMsgHeader + it.length;
         }
@@ -620,11 +605,6 @@ uint16_t checkHeaders(Reporter& rep, const Batch& b, const std::vector<std::vect
         {
             snprintf(buf, sizeof buf, "frame %zu carries version %u, batch version is %u", fi, h.version, b.pkts[0].version);
             rep.v("C09", "C09:frame-version", buf);
-        }
-        if (h.reserved != 0)
-        {
-            snprintf(buf, sizeof buf, "frame %zu: reserved header byte is 0x%02x", fi, h.reserved);
-            rep.v("C09", "C09:reserved-byte-nonzero", buf);
         }
     }
     (void) w;
